@@ -42,7 +42,7 @@ def bounds(tier):
                        "four-index": "6 + 36 + %s bases" % ("36 of 216" if tier == "quick" else "216"),
                        "quick_subsets": "triples/quadruples: Latin-square subsets (36 each) in the quick tier",
                        "type_patterns": "all 2^n", "entry_points": ["cartesian", "spherical", "mix", "lincomb"]},
-            "part_B": {"type_lattice": "all 2^n patterns for 1-4 shell bases", "transforms": ["square", "wide", "tall", "0/1-valued with several ones per row", "entries up to 40"],
+            "part_B": {"type_lattice": "all 2^n patterns for 1-4 shell bases", "transforms": ["square", "wide", "tall", "0/1-valued with several ones per row", "entries up to 40", "integer dtype", "Fortran-ordered"],
                        "cart_permutations": "all for l<=2; generating set l=3,4",
                        "sph_order_sign": "all 3890 for l<=2; generating set l=3,4"}}
 
@@ -317,6 +317,15 @@ def transform_rewrites(st, tag):
     yield ("attach 0/1-valued T", st.with_(T=B), B)
     G = 40.0 * np.array([hvec("%s-big-%d" % (tag, r), n, -1, 1) for r in range(n)])
     yield ("attach T with entries up to 40", st.with_(T=G), G)
+    # representations of the transformation argument: integer dtype (a selection / summation matrix written with
+    # ints), Fortran-ordered memory
+    Bi = np.zeros((n, n), dtype=int)
+    for r in range(n):
+        Bi[r, (r + 1) % n] = 1
+        Bi[r, (r + 3) % n] = -2 if r % 2 else 1
+    yield ("attach integer-dtype T", st.with_(T=Bi), Bi.astype(float))
+    F = np.asfortranarray(np.array([hvec("%s-f-%d" % (tag, r), n, -1, 1) for r in range(max(1, n - 1))]))
+    yield ("attach Fortran-ordered T", st.with_(T=F), np.array(F))
 
 
 def evaluate(cfg):
